@@ -43,6 +43,11 @@ def build(case):
     files = {base + "/canary.mmm": "canary-beside", "p/q/above.mmm": "canary-above",
              base + "/target_out.mmm": "outside-target", D + "/zz_target_in.txt": "inside-target"}
     dirs = [D]
+    import re as _re
+    for part in _re.split(r"[,;:=|&+]", dn):
+        if part and part != dn:
+            dirs.append(base + "/" + part)
+            files[base + "/" + part + "/decoy.mmm"] = "bytecode of a sibling directory"
     symlinks = {}
     modes = {}
     must_remove, may_remove = [], []
@@ -155,7 +160,10 @@ def a_fs(a, res, ctx, phase=None):
 
 
 # (a DIR whose own name is not valid UTF-8 is refused by the argument parser of every sub-command: outside this property)
-DIRNAMES = ["DIR", "x.ms", "Lib.MS", "proj.mmm", "d.ms.d", ".cfg", "a b", "ms", "caf\u00e9"]
+DIRNAMES = ["DIR", "x.ms", "Lib.MS", "proj.mmm", "d.ms.d", ".cfg", "a b", "ms", "caf\u00e9",
+            # characters that mean something to a command line, a shell, a glob or a list syntax - in a NAME they mean nothing;
+            # for each separator-like character the parts on either side of it exist as sibling directories with bytecode of their own
+            "app,v2", "a;b", "a:b", "a=b", "a*b", "a?b", "[ab]", "{a,b}", "@dir", "a'b", "a\"b", "a$HOME", "#dir", "a%20b", "a&b", "~dir", "a+b", "a|b", "!dir", "a^b"]
 
 
 def canon(case):
